@@ -258,7 +258,8 @@ pub fn run(ctx: &mut Ctx) {
   // ---- (b) accept / reject decision and absence of later faults, in an isolated child per file
   let bin = std::env::var("GBV_REPO_BIN").unwrap_or_default();
   let types: Vec<u8> = if thorough { (0..=255u16).map(|x| x as u8).collect() } else { vec![0x00, 0x01, 0x02, 0x03, 0x05, 0x06, 0x08, 0x0f, 0x11, 0x12, 0x13, 0x19, 0x1b, 0x20, 0xfc, 0xff] };
-  let rom_codes: Vec<u8> = if thorough { vec![0x00, 0x01, 0x02, 0x03, 0x04, 0x05, 0x52, 0x53, 0x54] } else { vec![0x00, 0x01, 0x03, 0x52] };
+  // (files are sparse: an 8 MiB image costs nothing to create)
+  let rom_codes: Vec<u8> = if thorough { vec![0x00, 0x01, 0x02, 0x03, 0x04, 0x05, 0x06, 0x07, 0x08, 0x52, 0x53, 0x54] } else { vec![0x00, 0x01, 0x03, 0x07, 0x08, 0x52] };
   for &ct in types.iter() {
     for &rc in rom_codes.iter() {
       let u = unit;
